@@ -10,11 +10,12 @@ Section Rf2.
 Variable H : bytes -> bytes.
 Hypothesis Hlen : forall x, length (H x) = 32.
 Variable atomic : bool.
+Variable climit : nat.
 
 Notation enc := (enc H).
 Notation lrep := (lrep H).
 Notation canb := (canb H).
-Notation inv_st := (inv_st H).
+Notation inv_st := (inv_st H climit).
 Notation crep := (crep H).
 
 Lemma keyb_len rp k h : length rp + h = 256 -> length k = h -> length (keyb rp k) = 32.
@@ -57,7 +58,7 @@ Proof.
     destruct (enc h' rp' (Lf k v)) eqn:Ee; [apply (enc_nil H) in Ee; discriminate|]. rewrite <- Ee in E.
     destruct (load_batch st (enc h' rp' (Lf k v))) as [bs|] eqn:El; [|discriminate].
     injection E as <- <- <- <- <-.
-    destruct (load_canonical H Hlen st (enc h' rp' (Lf k v)) h' rp' (Lf k v) bs Hinv Em Hh) as [(Lb & F0 & R)|B];
+    destruct (load_canonical H Hlen climit st (enc h' rp' (Lf k v)) h' rp' (Lf k v) bs Hinv Em Hh) as [(Lb & F0 & R)|B];
       auto; try discriminate.
     + rewrite enc_length by (auto; discriminate). lia.
     + apply hash_of_enc; auto. discriminate.
@@ -78,9 +79,10 @@ Lemma move_up_spec st b i h' rp c x k v root st' b' n d' :
   (c = 1 /\ x = false) \/ (c = 2 /\ x = true) ->
   inv_st st -> length rp + S h' = 256 -> length k = h' -> length v = 32 -> lvl (S h') i -> length b = 31 ->
   crep h' b (2 * i + c) (x :: rp) (Lf k v) -> clean b (2 * i + (3 - c)) ->
-  move_up_shortcut H atomic st (enc h' (x :: rp) (Lf k v)) root b i (2 * i + c) (S h') = Some (st', b', n, d') ->
+  move_up_shortcut H atomic climit st (enc h' (x :: rp) (Lf k v)) root b i (2 * i + c) (S h') = Some (st', b', n, d') ->
   (d' = true /\ n = enc (S h') rp (Lf (x :: k) v) /\ inv_st st' /\ length b' = 31 /\
-   (i <> 0 -> lrep (S h') b' i rp (Lf (x :: k) v) /\ forall j, j <= 30 -> underb i j = false -> bget b' j = bget b j))
+   (i <> 0 -> lrep (S h') b' i rp (Lf (x :: k) v) /\ forall j, j <= 30 -> underb i j = false -> bget b' j = bget b j) /\
+   (i = 0 -> climit <= S h' -> cache_res st' root b'))
   \/ hash_break H.
 Proof.
   intros Hcx Hinv Hh Hk Hv Hl L C Co E. pose proof (lvl_le _ _ Hl) as Hi.
@@ -164,13 +166,16 @@ Proof.
           * apply bget_bset_same. rewrite !bset_length. lia. }
     split; [reflexivity|]. split; [reflexivity|]. split.
     + apply inv_store_node; auto.
-      match goal with |- BatchRep.canb _ (map_key ?e) _ => change e with (enc (S h') rp (Lf (x :: k) v)) end.
+      match goal with |- BatchRep.canb_at _ _ (map_key ?e) _ => change e with (enc (S h') rp (Lf (x :: k) v)) end.
       rewrite map_key_hash_of by (rewrite enc_length by (auto; discriminate); lia).
       rewrite hash_of_enc by (auto; discriminate).
-      exists (S h'), rp, (Lf (x :: k) v). split; [exact Hm0|]. split; [exact Hh|]. split; [simpl; lia|]. split; [exact Hv|].
+      exists rp, (Lf (x :: k) v). split; [exact Hm0|]. split; [exact Hh|]. split; [simpl; lia|]. split; [exact Hv|].
       split; [discriminate|]. split; [reflexivity|]. split; [exact Lb3|]. split; [|exact R3].
       unfold b3. rewrite !bget_bset_other by lia. apply bget_bset_same. lia.
-    + split; [exact Lb3|]. intros Hc0; congruence.
+    + split; [exact Lb3|]. split; [intros Hc0; congruence|].
+      intros _ Hcl. apply store_node_cache_res; auto.
+      match goal with |- 32 <= length ?e => change e with (enc (S h') rp (Lf (x :: k) v)) end.
+      rewrite (enc_length H Hlen) by discriminate. lia.
   - apply Nat.eqb_neq in Ei.
     assert (Frame : forall bb', (forall j, j <= 30 -> j <> 2 * i + 1 -> j <> 2 * i + 2 -> j <> 2 * s + 1 -> j <> 2 * s + 2 -> bget bb' j = bget b j) ->
                forall j, j <= 30 -> underb i j = false -> bget bb' j = bget b j).
@@ -191,6 +196,7 @@ Proof.
       set (b2 := bset (bset b (2 * i + 1) K) (2 * i + 2) V).
       assert (Lb2 : length b2 = 31) by (unfold b2; rewrite !bset_length; exact L).
       split; [reflexivity|]. split; [reflexivity|]. split; [apply inv_delete; exact Hinv|]. split; [exact Lb2|].
+      split; [|intros Hi0; congruence].
       intros _. split.
       * apply leaf_rep_intro.
         -- change (keyb rp (x :: k) ++ [2%N]) with K. unfold b2. rewrite bget_bset_other by lia. apply bget_bset_same. lia.
@@ -205,6 +211,7 @@ Proof.
       assert (Ds : 2 * s + 1 <> 2 * i + 1 /\ 2 * s + 1 <> 2 * i + 2 /\ 2 * s + 2 <> 2 * i + 1 /\ 2 * s + 2 <> 2 * i + 2 /\ 2 * s + 2 <= 30)
         by (unfold s; lia).
       split; [reflexivity|]. split; [reflexivity|]. split; [exact Hinv|]. split; [exact Lb3|].
+      split; [|intros Hi0; congruence].
       intros _. split.
       * apply leaf_rep_intro.
         -- change (keyb rp (x :: k) ++ [2%N]) with K. unfold b3. rewrite !bget_bset_other by lia. apply bget_bset_same. lia.
@@ -229,7 +236,7 @@ Definition collapses (l r : tree bytes) : Prop :=
 
 Lemma maybe_move_up_none st l r root b i h hl rpl hr rpr :
   ~ collapses l r ->
-  maybe_move_up H atomic st (enc hl rpl l) (enc hr rpr r) root b i h = None.
+  maybe_move_up H atomic climit st (enc hl rpl l) (enc hr rpr r) root b i h = None.
 Proof.
   intros Hc. unfold maybe_move_up.
   destruct l as [|kl vl|ll lr]; destruct r as [|kr vr|rl rr]; simpl in Hc; try contradiction.
@@ -260,29 +267,31 @@ Lemma finish_spec st l' r' root b i h' rp d st' b' n d' :
   inv_st st -> length rp + S h' = 256 -> wf h' l' -> wf h' r' -> vals32 l' -> vals32 r' ->
   lvl (S h') i -> length b = 31 ->
   crep h' b (2 * i + 1) (false :: rp) l' -> crep h' b (2 * i + 2) (true :: rp) r' ->
-  finish H atomic st (enc h' (false :: rp) l') (enc h' (true :: rp) r') root b i (S h') d = Some (st', b', n, d') ->
+  finish H atomic climit st (enc h' (false :: rp) l') (enc h' (true :: rp) r') root b i (S h') d = Some (st', b', n, d') ->
   (d' = snd (join l' r' d) /\ n = enc (S h') rp (fst (join l' r' d)) /\ inv_st st' /\ length b' = 31 /\
    (i <> 0 -> lrep (S h') b' i rp (fst (join l' r' d)) /\
-              forall j, j <= 30 -> underb i j = false -> bget b' j = bget b j))
+              forall j, j <= 30 -> underb i j = false -> bget b' j = bget b j) /\
+   (i = 0 -> climit <= S h' -> cache_res st' root b'))
   \/ hash_break H.
 Proof.
   intros Hinv Hh Wl Wr Vl Vr Hl L Cl Cr Ef. pose proof (lvl_le _ _ Hl) as Hi.
   assert (Interior : ~ collapses l' r' \/ d = false ->
-    (let '(st2, b2, n2) := interior_hash_b H atomic st (enc h' (false :: rp) l') (enc h' (true :: rp) r') root b i (S h') in
+    (let '(st2, b2, n2) := interior_hash_b H atomic climit st (enc h' (false :: rp) l') (enc h' (true :: rp) r') root b i (S h') in
        Some (st2, b2, n2, false)) = Some (st', b', n, d') ->
     (d' = snd (join l' r' d) /\ n = enc (S h') rp (fst (join l' r' d)) /\ inv_st st' /\ length b' = 31 /\
      (i <> 0 -> lrep (S h') b' i rp (fst (join l' r' d)) /\
-                forall j, j <= 30 -> underb i j = false -> bget b' j = bget b j))).
+                forall j, j <= 30 -> underb i j = false -> bget b' j = bget b j) /\
+     (i = 0 -> climit <= S h' -> cache_res st' root b'))).
   { intros Hnc E'.
     assert (Hj : join l' r' d = (Nd l' r', false)).
     { destruct Hnc as [Hnc| ->]; [apply join_no_collapse; auto|reflexivity]. }
     rewrite Hj. simpl fst. simpl snd.
-    destruct (interior_hash_b H atomic st (enc h' (false :: rp) l') (enc h' (true :: rp) r') root b i (S h')) as [[st2 b2] n2] eqn:Ei.
+    destruct (interior_hash_b H atomic climit st (enc h' (false :: rp) l') (enc h' (true :: rp) r') root b i (S h')) as [[st2 b2] n2] eqn:Ei.
     injection E' as <- <- <- <-.
-    destruct (interior_hash_spec H Hlen atomic st l' r' root b i h' rp st2 b2 n2 Hinv Hh Wl Wr Vl Vr Hl L Cl Cr Ei)
-      as (A1 & A2 & A3 & A4 & A5).
+    destruct (interior_hash_spec H Hlen atomic climit st l' r' root b i h' rp st2 b2 n2 Hinv Hh Wl Wr Vl Vr Hl L Cl Cr Ei)
+      as (A1 & A2 & A3 & A4 & A5 & A6).
     split; [reflexivity|]. split; [exact A1|]. split; [exact A2|]. split; [exact A3|].
-    intros Hi0. split; [exact A4|exact (A5 Hi0)]. }
+    split; [intros Hi0; split; [exact A4|exact (A5 Hi0)]|exact A6]. }
   unfold finish in Ef. destruct d.
   2:{ left. cbv iota beta in Ef. apply Interior; [right; reflexivity|exact Ef]. }
   destruct l' as [|kl vl|ll lr] eqn:El'; destruct r' as [|kr vr|rl rr] eqn:Er';
@@ -292,11 +301,13 @@ Proof.
     change (enc h' (true :: rp) E) with (@nil N) in Ef. cbv iota in Ef.
     destruct (Nat.eqb i 0) eqn:Ei0.
     + injection Ef as <- <- <- <-. apply Nat.eqb_eq in Ei0.
-      repeat split; auto; try (apply inv_delete; auto); intros; congruence.
+      split; [reflexivity|]. split; [reflexivity|]. split; [apply inv_delete; auto|]. split; [exact L|].
+      split; [intros; congruence|]. intros _ Hcl. apply delete_cache_res. exact Hcl.
     + injection Ef as <- <- <- <-. apply Nat.eqb_neq in Ei0.
       pose proof (crep_E_clean h' b i 1 _ Hl (or_introl eq_refl) L Cl) as C1.
       pose proof (crep_E_clean h' b i 2 _ Hl (or_intror eq_refl) L Cr) as C2.
       split; [reflexivity|]. split; [reflexivity|]. split; [exact Hinv|]. split; [rewrite !bset_length; exact L|].
+      split; [|intros Hi0; congruence].
       intros _. split.
       * simpl fst. cbn [BatchRep.lrep]. intros j Hj Hu. rewrite (under_inv i j Hi Hj) in Hu.
         destruct (Nat.eqb j (2 * i + 1)) eqn:E1.
